@@ -21,7 +21,9 @@
 (* same simple names: relative names resolve against the METHOD's package. *)
 (*                                                                         *)
 (* Part (b), run time - one action per observable step of the emitted code:*)
-(*   Start    exactly one call to the RPC on the client's channel (chan 1) *)
+(*   Start    exactly one call to the RPC on the channel of the client     *)
+(*            instance the caller uses (chan = inst; two instances of the  *)
+(*            service, each with its own channel, live in one process)     *)
 (*            carrying the caller's argument, whatever the request field   *)
 (*            is called (`name`, `operation`, `operation_async`) and       *)
 (*            whether it is passed in a request object or flattened        *)
@@ -45,11 +47,13 @@ CONSTANTS MaxK,      \* longest not-done prefix
           Values,    \* abstract response payloads (positive integers)
           Codes,     \* google.rpc.Code numbers an operation may fail with
           Scope,     \* "all" | "res" (every resolution case, one history) | "run" (carrier cases, every history)
+          Insts,     \* which client instances of the process (1 = created first, 2 = second) start the operation
           Mutant     \* "none" for the real design; anything else is a self-test mutant TLC must reject
 
 VARIABLES c,         \* the case: [ann, out, rsp, mta, fld, form] (never changes)
           h,         \* the history: [k, outcome, value, code]   (never changes)
           mode,      \* "sync" | "asyncio" client                (never changes)
+          inst,      \* the client instance (= its channel) the caller uses: 1 | 2   (never changes)
           stage,     \* "load" | "resolve" | "ready" | "failed"
           pos,       \* number of request files loaded in pass 1
           known,     \* full names of the messages registered so far
@@ -57,14 +61,16 @@ VARIABLES c,         \* the case: [ann, out, rsp, mta, fld, form] (never changes
           lro,       \* [resp, meta] resolved full names ("" before / when not an LRO)
           phase,     \* "idle" | "called" | "wrapped" | "settled"
           cur,       \* index of the last operation state the client has seen
-          calls,     \* calls seen by the server: [rpc, chan, name]
+          calls,     \* calls seen by the servers: [rpc, chan, name]; chan = the channel (client instance) the call
+                     \* went out on, 0 = a channel that belongs to no client instance
           future,    \* "" | "sync" | "async" | "none"
           seenMeta,  \* [type, value] of future.metadata
           result,    \* [type, value] returned by result() / by a plain method
           raised     \* 0 | status code raised by result()
-vars == <<c, h, mode, stage, pos, known, genres, lro, phase, cur, calls, future, seenMeta, result, raised>>
+vars == <<c, h, mode, inst, stage, pos, known, genres, lro, phase, cur, calls, future, seenMeta, result, raised>>
 
 P     == "acme.lr.v1"
+A     == "acme"             \* a package ENCLOSING the method's package (a dependency, imported by the service file)
 D     == "other.dep.v1"
 OP    == "google.longrunning.Operation"
 EMPTY == "google.protobuf.Empty"
@@ -75,10 +81,14 @@ RSP == "RunResponse"
 MTA == "RunMetadata"
 
 Sites == {"same", "imported", "unimp_before", "unimp_after", "empty_pb"}
-TypeRefs == {r \in [kind : {"rel", "fq", "empty"}, site : Sites] :
+\* encl: a message with the same short name ALSO exists in the enclosing package A (file `anc`, imported by the
+\* service file).  It must never capture a relative name: the method's own package wins.
+TypeRefs == {r \in [kind : {"rel", "fq", "empty"}, site : Sites, encl : BOOLEAN] :
                /\ (r.site = "empty_pb" => r.kind = "fq")     \* a relative `Empty` would name P.Empty, which does not exist
-               /\ (r.kind = "empty" => r.site = "same")}     \* canonical: the site of an unnamed type is irrelevant
-Canon == [kind |-> "rel", site |-> "same"]
+               /\ (r.kind = "empty" => r.site = "same")      \* canonical: the site of an unnamed type is irrelevant
+               /\ (r.encl => r.kind = "rel")}                \* bound: the enclosing namesake is varied for relative names
+Ref(k, s) == [kind |-> k, site |-> s, encl |-> FALSE]
+Canon == Ref("rel", "same")
 \* How the caller names the resource: the request field is called `fld` and is passed either inside a request
 \* object or as a flattened keyword argument (method_signature = fld).  `operation` / `operation_async` are the
 \* names of the api-core modules the emitted clients wrap the reply with: the property does not depend on any of it.
@@ -90,13 +100,15 @@ ResCases == {Shape(x, "name", "request") : x \in
                {y \in [ann : BOOLEAN, out : {"op", "other"}, rsp : TypeRefs, mta : TypeRefs] :
                   ~y.ann => (y.rsp = Canon /\ y.mta = Canon)}}
 CarrierTypes ==
-            { [ann |-> TRUE, out |-> "op", rsp |-> [kind |-> "rel", site |-> "unimp_after"], mta |-> [kind |-> "rel", site |-> "imported"]],
-              [ann |-> TRUE, out |-> "op", rsp |-> [kind |-> "fq", site |-> "empty_pb"], mta |-> [kind |-> "fq", site |-> "same"]],
-              [ann |-> TRUE, out |-> "op", rsp |-> [kind |-> "fq", site |-> "empty_pb"], mta |-> [kind |-> "rel", site |-> "same"]],
-              [ann |-> TRUE, out |-> "op", rsp |-> [kind |-> "fq", site |-> "unimp_before"], mta |-> [kind |-> "fq", site |-> "empty_pb"]],
+            { [ann |-> TRUE, out |-> "op", rsp |-> Ref("rel", "unimp_after"), mta |-> Ref("rel", "imported")],
+              [ann |-> TRUE, out |-> "op", rsp |-> Ref("fq", "empty_pb"), mta |-> Ref("fq", "same")],
+              [ann |-> TRUE, out |-> "op", rsp |-> Ref("fq", "empty_pb"), mta |-> Ref("rel", "same")],
+              [ann |-> TRUE, out |-> "op", rsp |-> Ref("fq", "unimp_before"), mta |-> Ref("fq", "empty_pb")],
+              [ann |-> TRUE, out |-> "op", rsp |-> [kind |-> "rel", site |-> "same", encl |-> TRUE],
+                                           mta |-> [kind |-> "rel", site |-> "unimp_after", encl |-> TRUE]],
               [ann |-> FALSE, out |-> "op", rsp |-> Canon, mta |-> Canon] }
 Carriers == {Shape(x, "name", "request") : x \in CarrierTypes}
-            \cup {Shape(x, f, g) : x \in {y \in CarrierTypes : y.ann}, f \in Fields \ {"name"}, g \in Forms}
+            \cup {Shape(x, f, g) : x \in {y \in CarrierTypes : y.ann /\ ~y.rsp.encl}, f \in Fields \ {"name"}, g \in Forms}
 
 MinOf(S) == CHOOSE x \in S : \A y \in S : x <= y
 Hists == {x \in [k : 0..MaxK, outcome : {"response", "error"}, value : Values, code : Codes] :
@@ -106,22 +118,23 @@ FixedHist == [k |-> 1, outcome |-> "response", value |-> MinOf(Values), code |->
 
 -----------------------------------------------------------------------------
 (* The request: files in the order the generator receives them.            *)
-Order == <<"empty", "dep", "types_imp", "types_unb", "lr", "types_una">>
+Order == <<"empty", "dep", "anc", "types_imp", "types_unb", "lr", "types_una">>
 Home(r) == CASE r.site = "same"         -> "lr"
              [] r.site = "imported"     -> "types_imp"
              [] r.site = "unimp_before" -> "types_unb"
              [] r.site = "unimp_after"  -> "types_una"
              [] r.site = "empty_pb"     -> "empty"
-Used == {"empty", "dep", "lr", Home(c.rsp), Home(c.mta)}
+Used == {"empty", "dep", "lr", Home(c.rsp), Home(c.mta)} \cup (IF c.rsp.encl \/ c.mta.encl THEN {"anc"} ELSE {})
 ReqOrder == SelectSeq(Order, LAMBDA f : f \in Used)
-PkgOf(f) == CASE f = "empty" -> "google.protobuf" [] f = "dep" -> D [] OTHER -> P
+PkgOf(f) == CASE f = "empty" -> "google.protobuf" [] f = "dep" -> D [] f = "anc" -> A [] OTHER -> P
 SimpleMsgs(f) == CASE f = "empty" -> <<"Empty">>
                    [] f = "dep"   -> <<RSP, MTA>>
+                   [] f = "anc"   -> (IF c.rsp.encl THEN <<RSP>> ELSE <<>>) \o (IF c.mta.encl THEN <<MTA>> ELSE <<>>)
                    [] OTHER       -> (IF f = "lr" THEN <<"Req", "Thing">> ELSE <<>>)
                                      \o (IF Home(c.rsp) = f THEN <<RSP>> ELSE <<>>)
                                      \o (IF Home(c.mta) = f THEN <<MTA>> ELSE <<>>)
 Defs(f) == {Qual(PkgOf(f), SimpleMsgs(f)[i]) : i \in DOMAIN SimpleMsgs(f)}
-ImportsOf(f) == IF f = "lr" THEN SelectSeq(ReqOrder, LAMBDA g : g \in {"empty", "dep", "types_imp"}) ELSE <<>>
+ImportsOf(f) == IF f = "lr" THEN SelectSeq(ReqOrder, LAMBDA g : g \in {"empty", "dep", "anc", "types_imp"}) ELSE <<>>
 
 \* the text of the annotation
 Written(r, simple) == CASE r.kind = "empty" -> ""
@@ -132,6 +145,7 @@ Written(r, simple) == CASE r.kind = "empty" -> ""
 ResolveName(r, simple) ==
     CASE Mutant = "prefix_qualified" -> Qual(P, Written(r, simple))
       [] Mutant = "decoy_package" /\ r.kind = "rel" -> Qual(D, simple)
+      [] Mutant = "outermost_first" /\ r.kind = "rel" /\ r.encl -> Qual(A, simple)   \* captured by the enclosing package
       [] r.kind = "rel" -> Qual(P, simple)       \* P is the package of the METHOD
       [] OTHER -> Written(r, simple)
 
@@ -142,12 +156,13 @@ LacksName == c.rsp.kind = "empty" \/ c.mta.kind = "empty"
 Init == /\ c \in (IF Scope = "run" THEN Carriers ELSE ResCases)
         /\ h \in (IF Scope = "res" THEN {FixedHist} ELSE Hists)
         /\ mode \in (IF Scope = "res" THEN {"sync"} ELSE {"sync", "asyncio"})
+        /\ inst \in Insts
         /\ stage = "load" /\ pos = 0 /\ known = {} /\ genres = "pending" /\ lro = [resp |-> "", meta |-> ""]
         /\ phase = "idle" /\ cur = 0 /\ calls = <<>> /\ future = ""
         /\ seenMeta = [type |-> "", value |-> 0] /\ result = [type |-> "", value |-> 0] /\ raised = 0
 
 rt == <<phase, cur, calls, future, seenMeta, result, raised>>
-cs == <<c, h, mode>>
+cs == <<c, h, mode, inst>>
 
 \* pass 1: one file at a time, messages only.  (mutant single_pass: services are loaded as soon as their file is)
 LoadTypes == /\ stage = "load" /\ pos < Len(ReqOrder)
@@ -181,7 +196,7 @@ MetaAt(i) == [type |-> MetaType, value |-> ValueIn(MetaType, i)]
 NPolls == Len(calls) - (IF phase = "idle" THEN 0 ELSE 1)
 
 Start == /\ stage = "ready" /\ phase = "idle"
-         /\ calls' = <<[rpc |-> "Run", chan |-> 1, name |-> IF Mutant = "lose_argument" THEN "" ELSE Arg]>>
+         /\ calls' = <<[rpc |-> "Run", chan |-> inst, name |-> IF Mutant = "lose_argument" THEN "" ELSE Arg]>>
          /\ cur' = 1 /\ phase' = "called"
          /\ UNCHANGED <<cs, stage, pos, known, genres, lro, future, seenMeta, result, raised>>
 
@@ -200,7 +215,10 @@ Return == /\ phase = "called" /\ genres = "plain"
 PollGuard == IF Mutant = "poll_when_done" THEN NPolls <= h.k ELSE ~Done(cur)
 Poll == /\ phase = "wrapped" /\ PollGuard
         /\ calls' = Append(calls, [rpc  |-> "GetOperation",
-                                   chan |-> IF Mutant = "fresh_channel" THEN 2 ELSE 1,
+                                   chan |-> CASE Mutant = "fresh_channel" -> 0
+                                              \* one operations client per PROCESS, built on the first instance's channel
+                                              [] Mutant = "shared_operations_client" -> 1
+                                              [] OTHER -> inst,
                                    name |-> IF Mutant = "wrong_name" THEN "" ELSE OpName])
         /\ cur' = cur + 1
         /\ seenMeta' = MetaAt(cur + 1)
@@ -254,8 +272,10 @@ Inv_Polls == /\ NPolls <= h.k
              /\ IsFuture => NPolls = cur - 1
              /\ phase = "settled" /\ genres = "future" => NPolls = h.k
              /\ \A i \in DOMAIN calls : i > 1 => calls[i].rpc = "GetOperation" /\ calls[i].name = OpName
-\* on the same channel
-Inv_SameChannel == \A i \in DOMAIN calls : calls[i].chan = 1
+\* "polls ... on the same channel": the RPC goes out on the channel of the client instance the caller used, and
+\* every poll of the operation goes out on the channel its Start went out on
+Inv_SameChannel == /\ calls # <<>> => calls[1].chan = inst
+                   /\ \A i \in DOMAIN calls : calls[i].chan = calls[1].chan
 \* result is an instance of the annotated response type and equals the packed response
 Inv_Result == phase = "settled" /\ genres = "future" /\ h.outcome = "response" =>
                   result = [type |-> RespT, value |-> ValueIn(RespT, h.value)] /\ raised = 0
@@ -276,7 +296,7 @@ Emit == Terminal =>
         respName |-> Written(c.rsp, RSP), metaName |-> Written(c.mta, MTA),
         outType |-> IF c.out = "op" THEN OP ELSE THING,
         files |-> [i \in 1..Len(ReqOrder) |-> FileRec(ReqOrder[i])],
-        mode |-> mode, k |-> h.k, outcome |-> h.outcome, value |-> h.value, code |-> h.code,
+        mode |-> mode, inst |-> inst, k |-> h.k, outcome |-> h.outcome, value |-> h.value, code |-> h.code,
         opname |-> OpName,
         gen |-> genres, resp |-> lro.resp, meta |-> lro.meta,
         starts |-> Len(calls) - Len(PollCalls),
